@@ -28,8 +28,8 @@ func Properties() []*core.Property {
 
 type pd struct {
 	id, level, levelText, technique, expl string
-	notCovered                          []string
-	rules                               []*core.Rule
+	notCovered                            []string
+	rules                                 []*core.Rule
 }
 
 func mk(p pd) *core.Property {
@@ -39,117 +39,117 @@ func mk(p pd) *core.Property {
 
 var props = []*core.Property{
 	mk(pd{id: "C01", level: "proof",
-		levelText: "Static proof obligations over all inputs and limits at once: every index/slice/make/division/fixed-width read site in module code is proved in range against len by a linear-fact engine; every loop is ranked or of a recognised terminating form; recursion is depth-guarded or structural; no other panic source; results are non-nil. A site the engine cannot prove is reported as a violation, so on this tree obligations == discharged.",
-		technique: "abstract interpretation over go/ssa with linear facts, Houdini invariants, inferred callee summaries and Fourier-Motzkin entailment; ranking functions; counting typestate; SCC inventory",
-		expl:      "decides that no module code reachable from detection can panic, read outside its header, loop forever or recurse without bound, for every (header, limit)",
+		levelText:  "Static proof obligations over all inputs and limits at once: every index/slice/make/division/fixed-width read site in module code is proved in range against len by a linear-fact engine; every loop is ranked or of a recognised terminating form; recursion is depth-guarded or structural; no other panic source; results are non-nil. A site the engine cannot prove is reported as a violation, so on this tree obligations == discharged.",
+		technique:  "abstract interpretation over go/ssa with linear facts, Houdini invariants, inferred callee summaries and Fourier-Motzkin entailment; ranking functions; counting typestate; SCC inventory",
+		expl:       "decides that no module code reachable from detection can panic, read outside its header, loop forever or recurse without bound, for every (header, limit)",
 		notCovered: []string{"out-of-memory when the limit is huge", "panics inside std / x/net callees beyond the stated preconditions", "nil reader argument", "32-bit int overflow", "frame size x 4096 fits the stack (arithmetic, stated)"},
 		rules:      []*core.Rule{ruleBounds, ruleNoPanics, ruleDynCalls, ruleTermination, ruleSCC, ruleCap, rulePools, ruleTreeWF, ruleFreshResults, ruleErrorReturns}}),
 	mk(pd{id: "C02", level: "other",
-		levelText: "Structural necessary conditions, each decided for all inputs: registered names are valid lower-case media types; only `charset` can be attached, only through the sniffer selected by the node's own type and only through mime.FormatMediaType; ancestors are cloned parameter-free up to the root; every error return carries the detached octet-stream sentinel and the callee's error.",
-		technique: "constant folding of the tree initialisers + token grammar; provenance (taint-with-sanitiser) rule on the clone; path-sensitive error discipline on the entry points' CFGs",
-		expl:      "decides the shape of what detection can return: which strings can become a result's type, which parameters can be attached and how, what the parent chain is made of, what accompanies an error",
+		levelText:  "Structural necessary conditions, each decided for all inputs: registered names are valid lower-case media types; only `charset` can be attached, only through the sniffer selected by the node's own type and only through mime.FormatMediaType; ancestors are cloned parameter-free up to the root; every error return carries the detached octet-stream sentinel and the callee's error.",
+		technique:  "constant folding of the tree initialisers + token grammar; provenance (taint-with-sanitiser) rule on the clone; path-sensitive error discipline on the entry points' CFGs",
+		expl:       "decides the shape of what detection can return: which strings can become a result's type, which parameters can be attached and how, what the parent chain is made of, what accompanies an error",
 		notCovered: []string{"that mime.FormatMediaType -> mime.ParseMediaType round-trips every label (stdlib behaviour)"},
 		rules:      []*core.Rule{ruleNames, ruleTreeWF, ruleParams, ruleCloneChain, ruleErrorReturns, ruleSnifferMap}}),
 	mk(pd{id: "C03", level: "other",
-		levelText: "The tree is well formed (single parent, rooted) and the only function that invokes detectors is a recursive first-match descent over the receiver's children with unmodified arguments, returning the clone of exactly the static parent chain, inside one read-lock region. These are necessary and, with the trusted base, sufficient for the reported hierarchy to be the first-match deepest path.",
-		technique: "tree reconstruction from type-checked initialisers; shape rules on the walk's SSA (forward full-range loop, call arguments, edges); lockset",
-		expl:      "decides the walk discipline and the clone chain for every input and every tree reachable by Extend",
+		levelText:  "The tree is well formed (single parent, rooted) and the only function that invokes detectors is a recursive first-match descent over the receiver's children with unmodified arguments, returning the clone of exactly the static parent chain, inside one read-lock region. These are necessary and, with the trusted base, sufficient for the reported hierarchy to be the first-match deepest path.",
+		technique:  "tree reconstruction from type-checked initialisers; shape rules on the walk's SSA (forward full-range loop, call arguments, edges); lockset",
+		expl:       "decides the walk discipline and the clone chain for every input and every tree reachable by Extend",
 		notCovered: []string{"an independent re-walk per input (runtime)"},
 		rules:      []*core.Rule{ruleTreeWF, ruleWalkDiscipline, ruleCloneChain, ruleSnapshot, ruleExtend}}),
 	mk(pd{id: "C04", level: "other",
-		levelText: "No hidden inputs or outputs: the walk receives exactly in[:limit] for the snapshot limit (order types tabulated); no detector, sniffer or entry writes through its input slice; no store to package state outside initialisers; pooled objects are typed, reset before use, and every scanner field written during scanning is reset; no nondeterministic source. Sufficient for purity modulo the trusted base.",
-		technique: "finite-domain tabulation of the slicing decision; write-through-parameter summaries over the call graph with an external contract table; pool typestate by dominance; store inventory",
-		expl:      "decides purity of detection as a function of (first `limit` bytes, limit, registered formats) and immutability of the caller's buffer",
+		levelText:  "No hidden inputs or outputs: the walk receives exactly in[:limit] for the snapshot limit (order types tabulated); no detector, sniffer or entry writes through its input slice; no store to package state outside initialisers; pooled objects are typed, reset before use, and every scanner field written during scanning is reset; no nondeterministic source. Sufficient for purity modulo the trusted base.",
+		technique:  "finite-domain tabulation of the slicing decision; write-through-parameter summaries over the call graph with an external contract table; pool typestate by dominance; store inventory",
+		expl:       "decides purity of detection as a function of (first `limit` bytes, limit, registered formats) and immutability of the caller's buffer",
 		notCovered: []string{"read-only behaviour of std callees is taken from the contract table"},
 		rules:      []*core.Rule{ruleLimitSlice, ruleInputImmutable, ruleContracts, rulePools, rulePkgState, ruleSnapshot, ruleReader}}),
 	mk(pd{id: "C05", level: "other",
-		levelText: "Sibling agreement and reader confinement: both entries take one limit snapshot and hand (buffer, that limit) to the same walk under the read lock; the reader is used only by io.ReadFull into make([]byte, limit) / io.ReadAll iff limit == 0; the walk sees buf[:n]; every path from a read to a success return tests the error, only ReadFull's may be excused and only by io.EOF / io.ErrUnexpectedEOF; the file entry forwards to the reader entry.",
-		technique: "use-site confinement of the reader parameter; path-sensitive typestate of the error value over the CFG; transitive snapshot counting",
-		expl:      "decides how many bytes can be consumed, what the walk sees, and that read failures surface, for every reader behaviour",
+		levelText:  "Sibling agreement and reader confinement: both entries take one limit snapshot and hand (buffer, that limit) to the same walk under the read lock; the reader is used only by io.ReadFull into make([]byte, limit) / io.ReadAll iff limit == 0; the walk sees buf[:n]; every path from a read to a success return tests the error, only ReadFull's may be excused and only by io.EOF / io.ErrUnexpectedEOF; the file entry forwards to the reader entry.",
+		technique:  "use-site confinement of the reader parameter; path-sensitive typestate of the error value over the CFG; transitive snapshot counting",
+		expl:       "decides how many bytes can be consumed, what the walk sees, and that read failures surface, for every reader behaviour",
 		notCovered: []string{"semantics of io.ReadFull / io.ReadAll / os.Open themselves"},
 		rules:      []*core.Rule{ruleReader, ruleErrorReturns, ruleLimitSlice, ruleSnapshot}}),
 	mk(pd{id: "C06", level: "other",
-		levelText: "Data-race freedom of the module's own code by lockset + origin analysis (children field under R/W lock, atomic-only limit, write-once node fields, no in-place append on shared slices, no package state besides pools/atomics/the tree) and the single-snapshot clause (one limit load, one walk, whole descent in one read region, fresh results).",
-		technique: "lockset dataflow with requires-lock summaries; origin classes (fresh/param/global); store and append inventory; transitive atomic-load counting",
-		expl:      "decides the locking and publication discipline for all interleavings",
+		levelText:  "Data-race freedom of the module's own code by lockset + origin analysis (children field under R/W lock, atomic-only limit, write-once node fields, no in-place append on shared slices, no package state besides pools/atomics/the tree) and the single-snapshot clause (one limit load, one walk, whole descent in one read region, fresh results).",
+		technique:  "lockset dataflow with requires-lock summaries; origin classes (fresh/param/global); store and append inventory; transitive atomic-load counting",
+		expl:       "decides the locking and publication discipline for all interleavings",
 		notCovered: []string{"races inside user-supplied detectors", "linearizability as a property of histories (only the structural single-snapshot condition is decided)"},
 		rules:      []*core.Rule{ruleAtomics, ruleLockset, ruleWriteOnce, ruleSharedAppend, rulePkgState, ruleSnapshot, ruleFreshResults, rulePools}}),
 	mk(pd{id: "C07", level: "proof",
-		levelText: "Exhaustive: the text detector's per-byte predicate is tabulated over all 256 byte values from its SSA and equals the WHATWG binary-data-byte table; the BOM table is exactly the five marks with no shadowed entry; the scan covers the whole unmodified header; text/plain exists once, under the root, last; children are consulted only after the parent; only the first `limit` bytes reach the walk.",
-		technique: "finite-domain evaluation of SSA expression trees over the byte domain; shape rules; tree model",
-		expl:      "decides text-versus-binary for every header and limit",
+		levelText:  "Exhaustive: the text detector's per-byte predicate is tabulated over all 256 byte values from its SSA and equals the WHATWG binary-data-byte table; the BOM table is exactly the five marks with no shadowed entry; the scan covers the whole unmodified header; text/plain exists once, under the root, last; children are consulted only after the parent; only the first `limit` bytes reach the walk.",
+		technique:  "finite-domain evaluation of SSA expression trees over the byte domain; shape rules; tree model",
+		expl:       "decides text-versus-binary for every header and limit",
 		notCovered: []string{},
 		rules:      []*core.Rule{ruleTextPredicate, ruleTextShape, ruleBOMTable, ruleTextNode, ruleWalkDiscipline, ruleLimitSlice, ruleReader}}),
 	mk(pd{id: "C08", level: "other",
-		levelText: "Necessary conditions of JSON completeness: the whole/truncated criterion table over all order types of (limit, len); failure of an inner value fails the enclosing container; the entry reports the scanner's own counters, the inspected counter moves by +1 only; the recursion cap admits depth 4096; first-token gate and node placement; one limit snapshot.",
-		technique: "finite-domain tabulation with forking walk; failed-edge propagation rule on the scanner's CFGs; provenance of the entry's results",
-		expl:      "decides the decision logic around the scanner, not the scanner's grammar",
+		levelText:  "Necessary conditions of JSON completeness: the whole/truncated criterion table over all order types of (limit, len); failure of an inner value fails the enclosing container; the entry reports the scanner's own counters, the inspected counter moves by +1 only; the recursion cap admits depth 4096; first-token gate and node placement; one limit snapshot.",
+		technique:  "finite-domain tabulation with forking walk; failed-edge propagation rule on the scanner's CFGs; provenance of the entry's results",
+		expl:       "decides the decision logic around the scanner, not the scanner's grammar",
 		notCovered: []string{"completeness of the scanner for every RFC 8259 document and every cut point (grammar-level; not decided)"},
 		rules:      []*core.Rule{ruleTruncTable, ruleFailProp, ruleParseResults, ruleAccounting, ruleLexTables, ruleCap, ruleJSONNodes, ruleTokenGate, ruleSnapshot, rulePools}}),
 	mk(pd{id: "C09", level: "other",
-		levelText: "Necessary conditions of JSON soundness: failure propagation; whole-mode acceptance is parsed == len; per-byte tables of every structural byte test in the container loops (only ',' continues, only the matching closer closes, '\"' starts a key, ':' follows it, everything else fails), value dispatch table; first-token gate.",
-		technique: "finite-domain tabulation of byte dispatches (256 values each) with helper-call folding; failed-edge propagation",
-		expl:      "decides the structural byte discipline of the container scanners and the acceptance decision",
+		levelText:  "Necessary conditions of JSON soundness: failure propagation; whole-mode acceptance is parsed == len; per-byte tables of every structural byte test in the container loops (only ',' continues, only the matching closer closes, '\"' starts a key, ':' follows it, everything else fails), value dispatch table; first-token gate.",
+		technique:  "finite-domain tabulation of byte dispatches (256 values each) with helper-call folding; failed-edge propagation",
+		expl:       "decides the structural byte discipline of the container scanners and the acceptance decision",
 		notCovered: []string{"soundness of the scalar scanners (strings, numbers, literals) for every non-JSON string"},
 		rules:      []*core.Rule{ruleFailProp, ruleTruncTable, ruleParseResults, ruleAccounting, ruleSeparators, ruleLexTables, ruleTokenGate, rulePools, ruleSnapshot}}),
 	mk(pd{id: "C10", level: "other",
-		levelText: "Path-stack push/pop balance on every success path and no underflow; query tables equal the RFC 7946 / HAR / glTF specification tables; query discipline: every key is matched against every query by full path equality, the member is judged right after its value and before any other exit, the verdict flag is only set under match and value equality and never cleared; detector/query/node agreement and sibling order.",
-		technique: "counting typestate over the scanner CFGs; constant folding of the query table; shape and dominance rules on the object scanner",
-		expl:      "decides the mechanisms that make the sub-type verdict depend only on top-level members",
+		levelText:  "Path-stack push/pop balance on every success path and no underflow; query tables equal the RFC 7946 / HAR / glTF specification tables; query discipline: every key is matched against every query by full path equality, the member is judged right after its value and before any other exit, the verdict flag is only set under match and value equality and never cleared; detector/query/node agreement and sibling order.",
+		technique:  "counting typestate over the scanner CFGs; constant folding of the query table; shape and dominance rules on the object scanner",
+		expl:       "decides the mechanisms that make the sub-type verdict depend only on top-level members",
 		notCovered: []string{"order/content independence as a behavioural fact for every document"},
 		rules:      []*core.Rule{ruleStackBalance, ruleQueryTables, ruleQueryDiscipline, ruleJSONNodes, ruleTokenGate, ruleParseResults, rulePools}}),
 	mk(pd{id: "C11", level: "other",
-		levelText: "BOM table and order; BOM first; every return of utf-8 is control dependent on utf8.Valid or the ASCII test; the ASCII class, tabulated over 256 bytes through the class table, is 7-bit and contains printable ASCII; the validated buffer is the input minus at most an incomplete final rune (FullRune-guarded); Latin fallback: C1 predicate table, flag monotone, verdict names.",
-		technique: "finite-domain tabulation through constant tables; control-dependence rules",
-		expl:      "decides the decision structure of the plain sniffer for every byte string",
+		levelText:  "BOM table and order; BOM first; every return of utf-8 is control dependent on utf8.Valid or the ASCII test; the ASCII class, tabulated over 256 bytes through the class table, is 7-bit and contains printable ASCII; the validated buffer is the input minus at most an incomplete final rune (FullRune-guarded); Latin fallback: C1 predicate table, flag monotone, verdict names.",
+		technique:  "finite-domain tabulation through constant tables; control-dependence rules",
+		expl:       "decides the decision structure of the plain sniffer for every byte string",
 		notCovered: []string{"truthfulness for every byte string as a whole (utf8.Valid semantics are trusted)"},
 		rules:      []*core.Rule{ruleBOMTable, rulePlainReturns, ruleASCIIClass, ruleTrim, ruleLatin}}),
 	mk(pd{id: "C12", level: "other",
-		levelText: "Sniffer map roles; the XML decoder has a usable CharsetReader before the first token; every returned label is lower-cased (XML: strings.ToLower; HTML: in-place ASCII lower-casing tabulated over 256 bytes, before any use); BOM dominates the meta prescan; utf-16* -> utf-8; pragma decision table over the prescan state equals WHATWG, per-tag state is reset.",
-		technique: "typestate (field store before first token call); finite-domain tabulation; dominance rules",
-		expl:      "decides the label plumbing around the x/net tokenizer and encoding/xml",
+		levelText:  "Sniffer map roles; the XML decoder has a usable CharsetReader before the first token; every returned label is lower-cased (XML: strings.ToLower; HTML: in-place ASCII lower-casing tabulated over 256 bytes, before any use); BOM dominates the meta prescan; utf-16* -> utf-8; pragma decision table over the prescan state equals WHATWG, per-tag state is reset.",
+		technique:  "typestate (field store before first token call); finite-domain tabulation; dominance rules",
+		expl:       "decides the label plumbing around the x/net tokenizer and encoding/xml",
 		notCovered: []string{"the WHATWG prescan as implemented by x/net/html", "quoting / whitespace variants inside the XML declaration"},
 		rules:      []*core.Rule{ruleSnifferMap, ruleDecoderTypestate, ruleLowerCase, ruleHTMLOrder, ruleParams, ruleReader, ruleLimitSlice}}),
 	mk(pd{id: "C13", level: "other",
-		levelText: "Line cutting agrees with the JSON truncation table (same order types); both detectors pass their own (header, limit) through it first; NDJSON lines are judged by the parsed length; thresholds tabulated (lines >= 2 and containers >= 1; fields >= 2 and records >= 2); csv reader: FieldsPerRecord untouched, detector's delimiter, EOF ends, any other error rejects.",
-		technique: "finite-domain tabulation; path-sensitive error typestate; field-store inventory on the csv reader",
-		expl:      "decides the truncation and acceptance logic around encoding/csv and the JSON scanner",
+		levelText:  "Line cutting agrees with the JSON truncation table (same order types); both detectors pass their own (header, limit) through it first; NDJSON lines are judged by the parsed length; thresholds tabulated (lines >= 2 and containers >= 1; fields >= 2 and records >= 2); csv reader: FieldsPerRecord untouched, detector's delimiter, EOF ends, any other error rejects.",
+		technique:  "finite-domain tabulation; path-sensitive error typestate; field-store inventory on the csv reader",
+		expl:       "decides the truncation and acceptance logic around encoding/csv and the JSON scanner",
 		notCovered: []string{"behaviour of encoding/csv at every cut position"},
 		rules:      []*core.Rule{ruleDropLastLine, ruleInspectedGuard, ruleLineThresholds, ruleTruncTable, ruleSnapshot, rulePools, ruleFailProp}}),
 	mk(pd{id: "C14", level: "other",
-		levelText: "Extend builds a fresh node from its parameters with parent = receiver and publishes [new] ++ old by one store under the write lock, old children read under the same lock; package-level Extend delegates to the root; lookup visits type, every alias and every child; the walk is first-match over whatever children holds; results are clones.",
-		technique: "shape rules on Extend's SSA; lockset regions; origin analysis",
-		expl:      "with C03's rules, structurally complete for the priority and isolation clauses",
+		levelText:  "Extend builds a fresh node from its parameters with parent = receiver and publishes [new] ++ old by one store under the write lock, old children read under the same lock; package-level Extend delegates to the root; lookup visits type, every alias and every child; the walk is first-match over whatever children holds; results are clones.",
+		technique:  "shape rules on Extend's SSA; lockset regions; origin analysis",
+		expl:       "with C03's rules, structurally complete for the priority and isolation clauses",
 		notCovered: []string{},
 		rules:      []*core.Rule{ruleExtend, ruleLookup, ruleWalkDiscipline, ruleFreshResults, ruleWriteOnce, ruleSnapshot, ruleParams, rulePkgState}}),
 	mk(pd{id: "C15", level: "other",
-		levelText: "Both operands of every comparison in Is / EqualsAny are ParseMediaType results, except alias operands, which are registered normalised; every registered name and alias is a lower-case token/token; every alias / candidate is visited; lookup compares exactly; results' type strings come only from FormatMediaType over a registered name.",
-		technique: "value-provenance rule on string comparisons; token grammar on folded constants",
-		expl:      "decides normalisation discipline of the equality helpers",
+		levelText:  "Both operands of every comparison in Is / EqualsAny are ParseMediaType results, except alias operands, which are registered normalised; every registered name and alias is a lower-case token/token; every alias / candidate is visited; lookup compares exactly; results' type strings come only from FormatMediaType over a registered name.",
+		technique:  "value-provenance rule on string comparisons; token grammar on folded constants",
+		expl:       "decides normalisation discipline of the equality helpers",
 		notCovered: []string{"ParseMediaType invariances (stdlib)"},
 		rules:      []*core.Rule{ruleAliases, ruleNames, ruleEquality, ruleLookup, ruleParams, rulePkgState}}),
 	mk(pd{id: "C16", level: "proof",
-		levelText: "Every recursive SCC of module functions is either the scanner family — guard tabulated around the cap, depth grows on every cycle through the guard, every construction installs a positive constant cap, nothing overwrites it, entry at depth 0 — or structural over the tree's children. On the capped edge the scanner fails and failure propagates.",
-		technique: "Tarjan SCC inventory over static calls; finite-domain tabulation of the guard; shortest-cycle increment; constructor/store inventory",
-		expl:      "bounds recursion depth by a constant independent of input size and limit",
+		levelText:  "Every recursive SCC of module functions is either the scanner family — guard tabulated around the cap, depth grows on every cycle through the guard, every construction installs a positive constant cap, nothing overwrites it, entry at depth 0 — or structural over the tree's children. On the capped edge the scanner fails and failure propagates.",
+		technique:  "Tarjan SCC inventory over static calls; finite-domain tabulation of the guard; shortest-cycle increment; constructor/store inventory",
+		expl:       "bounds recursion depth by a constant independent of input size and limit",
 		notCovered: []string{"frame size x 4096 fits the goroutine stack (arithmetic, stated)"},
 		rules:      []*core.Rule{ruleSCC, ruleCap, ruleFailProp}}),
 	mk(pd{id: "C17", level: "other",
-		levelText: "Every root-level non-text detector is proved prefix-monotone for arbitrary limits by a lock-step two-run argument over its SSA (or hands over to another root-level non-text detector); text is the last root child. Sufficient: if root child D accepts x[:L], D or an earlier non-text sibling accepts x[:L'].",
-		technique: "relational (2-safety) abstract interpretation: stable / growing / may-turn-true / may-turn-false classification of values and branches",
-		expl:      "decides monotonicity in the limit of all 96 root-level binary detectors",
+		levelText:  "Every root-level non-text detector is proved prefix-monotone for arbitrary limits by a lock-step two-run argument over its SSA (or hands over to another root-level non-text detector); text is the last root child. Sufficient: if root child D accepts x[:L], D or an earlier non-text sibling accepts x[:L'].",
+		technique:  "relational (2-safety) abstract interpretation: stable / growing / may-turn-true / may-turn-false classification of values and branches",
+		expl:       "decides monotonicity in the limit of all 96 root-level binary detectors",
 		notCovered: []string{},
 		rules:      []*core.Rule{ruleMonotone, ruleTextNode, ruleTreeWF}}),
 	mk(pd{id: "C18", level: "other",
-		levelText: "Tar: 512-byte guard and block; recorded checksum parsed from [148:156) and exactly that window blanked (index table 0..511); per-byte contribution to the (unsigned, signed) sums tabulated over all byte values and checked additive; acceptance is the disjunction of the two equalities; octal parser rejects every non-octal byte.",
-		technique: "finite-domain tabulation of one loop iteration and of the result expressions; shape rules",
-		expl:      "decides the checksum mechanics; the single-byte-corruption clause follows by arithmetic that is stated, not mechanised",
+		levelText:  "Tar: 512-byte guard and block; recorded checksum parsed from [148:156) and exactly that window blanked (index table 0..511); per-byte contribution to the (unsigned, signed) sums tabulated over all byte values and checked additive; acceptance is the disjunction of the two equalities; octal parser rejects every non-octal byte.",
+		technique:  "finite-domain tabulation of one loop iteration and of the result expressions; shape rules",
+		expl:       "decides the checksum mechanics; the single-byte-corruption clause follows by arithmetic that is stated, not mechanised",
 		notCovered: []string{"agreement with real tar writers", "the arithmetic corruption argument itself"},
 		rules:      []*core.Rule{ruleTar}}),
 	mk(pd{id: "C19", level: "other",
-		levelText: "Marker constants and first-entry list at the walker's call sites; ODF/EPUB nodes are decided by `mimetype`+registered type at offset 30 only; refinement (odt/ott ...) is parent/child; zip children, apk before jar; walker layout: name at 30, size at 18, +49, unbounded PK\\x03\\x04 searches, loop of 4, only recognised steps, accepts only under a marker match.",
-		technique: "constant folding at call sites; step whitelist and shape rules on the walker's SSA; tree model",
-		expl:      "decides the constants and the layout of the entry walk",
+		levelText:  "Marker constants and first-entry list at the walker's call sites; ODF/EPUB nodes are decided by `mimetype`+registered type at offset 30 only; refinement (odt/ott ...) is parent/child; zip children, apk before jar; walker layout: name at 30, size at 18, +49, unbounded PK\\x03\\x04 searches, loop of 4, only recognised steps, accepts only under a marker match.",
+		technique:  "constant folding at call sites; step whitelist and shape rules on the walker's SSA; tree model",
+		expl:       "decides the constants and the layout of the entry walk",
 		notCovered: []string{"agreement of the header walk with the archive's real entry list"},
 		rules:      []*core.Rule{ruleZipMarkers, ruleZipSignatures, ruleZipWalk, rulePkgState}}),
 }
